@@ -113,5 +113,5 @@ func c09ResultOwned(c *Ctx, p *core.Prog) {
 			}
 		}
 	}
-	r.Floor("result-owned", n, 5, "slice/map results of Parser and Tokenizer methods")
+	r.Floor("result-owned", n, 3, "slice/map results of Parser and Tokenizer methods")
 }
